@@ -96,7 +96,9 @@ def cases(draw):
     mode2D = draw(st.sampled_from([False, False, True]))
     allow3d = not mode2D
     ws = draw(st.one_of(st.none(), region_spec(allow3d, False), region_spec(allow3d, False)))
-    nobj = draw(st.integers(1, 3))
+    # (mostly one placed object: each further one multiplies the rejection rate, and a case
+    # whose unpruned program never accepts decides nothing)
+    nobj = draw(st.sampled_from([1, 1, 1, 2, 2, 3]))
     objs = []
     for i in range(nobj):
         o = {
